@@ -51,6 +51,8 @@ enum SOp {
     /// read the backing vector (single-threaded plans only)
     Read,
     Undeclared,
+    /// start a timer on a histogram leaf and discard it: nothing may reach the child, now or at the next flush
+    TimerDiscard { leaf: usize },
 }
 #[derive(Serialize, Deserialize, Clone, Debug)]
 struct StaticPlan {
@@ -80,6 +82,11 @@ fn gen_plan(seed: u64) -> StaticPlan {
                 65..=76 => SOp::Flush,
                 77..=83 if auto => SOp::SleepPast,
                 84..=91 if nthreads == 1 => SOp::Read,
+                92..=99 if !auto && info.kind.ends_with("Histogram") => {
+                    // preferably on a leaf that (in the local form) has unflushed observations
+                    let last = ops.iter().rev().find_map(|o| if let SOp::Update { leaf, .. } = o { Some(*leaf) } else { None });
+                    SOp::TimerDiscard { leaf: if r.chance(60) { last.unwrap_or(0) } else { r.below(info.leaves as u64) as usize } }
+                }
                 _ => SOp::Undeclared,
             };
             ops.push(op);
@@ -145,6 +152,10 @@ fn execute(plan: &StaticPlan, mode: Mode) -> RunOut {
                     }
                     SOp::Read => SRes::Read(decl.read()),
                     SOp::Undeclared => SRes::Undeclared(inst.undeclared_is_none()),
+                    SOp::TimerDiscard { leaf } => {
+                        inst.timer_discard(*leaf);
+                        SRes::None
+                    }
                 }));
                 ctx.ret(id);
                 results.lock().unwrap().push((id, r));
